@@ -291,6 +291,7 @@ def run(ctx: Ctx):
     padding_invariance(ctx, "C04.c", msl, msl.cell("current_length"))
     guarded_callees(ctx)
     ffsp_tables_per_reset(ctx)
+    alone_steppable(ctx)
     positive_control(ctx)
 
 
@@ -359,6 +360,60 @@ def positive_control(ctx: Ctx):
     if not ok:
         raise AnalysisError("positive control of the non-interference engine failed")
     ctx.extra["positive_control"] = "td['y'] + td['x'].sum() and td['tw'][..., 0, 1][0] are flagged; td['x'].sum(-1) is not"
+
+
+def alone_steppable(ctx: Ctx):
+    """C04.e an instance stepped alone (batch of one) goes through the same code as in any batch.  Two constructs only fail
+    for B = 1: (1) an in-place copy between overlapping basic-index views of ONE tensor (`x[:, :-1] = x[:, 1:]`) -- torch's
+    overlap check is only decisive when the batch axis has size one, where it raises; (2) in the improvement environments,
+    whose move samplers work on [B, 1] index tensors, a dimension-less `.squeeze()`, which removes the batch axis as well."""
+    import ast as _ast
+
+    def basic(ix):
+        items = ix.elts if isinstance(ix, _ast.Tuple) else [ix]
+        for it in items:
+            if isinstance(it, _ast.Slice):
+                continue
+            if isinstance(it, _ast.Constant) and (isinstance(it.value, int) or it.value is None or it.value is Ellipsis):
+                continue
+            if isinstance(it, _ast.UnaryOp) and isinstance(it.operand, _ast.Constant):
+                continue
+            return False
+        return any(isinstance(it, _ast.Slice) for it in items)
+
+    n_mod = 0
+    for mi in sorted(ctx.repo.modules.values(), key=lambda m: m.relpath):
+        if not (mi.relpath.startswith("rl4co/envs/") and mi.relpath.endswith("env.py")):
+            continue
+        n_mod += 1
+        ctx.repo.note(mi)
+        hits = []
+        for st in _ast.walk(mi.tree):
+            if isinstance(st, _ast.Assign) and len(st.targets) == 1 and isinstance(st.targets[0], _ast.Subscript) and isinstance(st.value, _ast.Subscript):
+                tb, vb = st.targets[0].value, st.value.value
+                if _ast.dump(tb) == _ast.dump(vb) and basic(st.targets[0].slice) and basic(st.value.slice) and _ast.dump(st.targets[0].slice) != _ast.dump(st.value.slice):
+                    hits.append(st)
+        for st in hits:
+            ctx.ob("C04.e", f"{mi.relpath}:overlapping-self-copy@{_ast.unparse(st.targets[0])[:40]}", False, f"{mi.relpath}:{st.lineno}",
+                   f"`{_ast.unparse(st)[:90]}` copies between overlapping views of one tensor without a clone: torch raises when the batch axis has size one (and the result is unspecified otherwise)",
+                   construct=f"{mi.relpath}:overlapping-self-copy:{alpha_key(_ast.unparse(st))}")
+        if not hits:
+            ctx.ob("C04.e", f"{mi.relpath}:no-overlapping-self-copy", True, mi.relpath, "no in-place copy between basic-index views of the same tensor")
+    if n_mod < 20:
+        raise AnalysisError(f"only {n_mod} env modules scanned")
+    for path, cname in (("rl4co/envs/routing/tsp/env.py", "TSPkoptEnv"), ("rl4co/envs/routing/pdp/env.py", "PDPRuinRepairEnv")):
+        cls = ctx.repo.get_class(path, cname)
+        for m in cls.methods.values():
+            ctx.fn(m)
+            bad = [c for c in _ast.walk(m.node) if isinstance(c, _ast.Call) and isinstance(c.func, _ast.Attribute) and c.func.attr == "squeeze" and not c.args and not c.keywords]
+            for c in bad:
+                ctx.ob("C04.e", f"{cname}.{m.name}:dimension-less-squeeze", False, f"{path}:{c.lineno}",
+                       f"`{_ast.unparse(c)[:80]}` also removes the batch axis when B = 1: the improvement envs index with these [B] / [B, 1] tensors",
+                       construct=f"{cname}.{m.name}:squeeze-all:{alpha_key(_ast.unparse(c))}")
+        n_sq = sum(1 for m in cls.methods.values() for c in _ast.walk(m.node) if isinstance(c, _ast.Call) and isinstance(c.func, _ast.Attribute) and c.func.attr == "squeeze")
+        ctx.ob("C04.e", f"{cname}:squeezes-name-their-axis", True, path, f"{n_sq} squeeze calls in the class, every one names the axis") \
+            if not any(isinstance(c, _ast.Call) and isinstance(c.func, _ast.Attribute) and c.func.attr == "squeeze" and not c.args and not c.keywords
+                       for m in cls.methods.values() for c in _ast.walk(m.node)) else None
 
 
 def run_thorough(ctx: Ctx):
